@@ -1,5 +1,5 @@
 (* Net/ReuseProofs.v — invariants of the ReuseConnTransport LTS (Net/Reuse.v) over ALL reachable
-   states: induction over arbitrary label sequences, any number of connections / exchanges. *)
+   states: induction over arbitrary label_ru sequences, any number of connections / exchanges. *)
 From Mos Require Import Base.Prelude Net.Reuse.
 
 (* the connection a goroutine owns at program counter p *)
@@ -25,7 +25,7 @@ Definition flight (q : nat) (k : conn) : Prop :=
  \/ (s_unans (srv k) = [] /\ s_mid (srv k) = None /\ s_inbox (srv k) = [Half1 q; Half2 q] /\ i_partial (io k) = false)
  \/ (s_unans (srv k) = [] /\ s_mid (srv k) = None /\ s_inbox (srv k) = [Half2 q] /\ i_partial (io k) = true)).
 
-Definition conn_ok (s : state) (c : nat) : Prop :=
+Definition conn_ok (s : state_ru) (c : nat) : Prop :=
   let k := conns s c in
   i_written (io k) <= S (i_consumed (io k)) /\
   s_maxout (srv k) <= 1 /\ s_dirtyq (srv k) = false /\
@@ -33,7 +33,7 @@ Definition conn_ok (s : state) (c : nat) : Prop :=
      cleanc k \/ exists q w, flight q k /\ w_pc (works s w) = WRead c /\ w_exch (works s w) = q) /\
   (f_inidle (fl k) = true -> f_serving (fl k) = false /\ cleanc k).
 
-Definition work_ok (s : state) (w : nat) : Prop :=
+Definition work_ok (s : state_ru) (w : nat) : Prop :=
   let k := works s w in let p := w_pc k in
   (forall c, held p = Some c ->
      c < nconn s /\ f_inidle (fl (conns s c)) = false /\
@@ -45,23 +45,23 @@ Definition work_ok (s : state) (w : nat) : Prop :=
   (forall q, w_sent k = Some (RMsg q) -> q = w_exch k) /\
   (nwork s <= w -> p = WNone).
 
-Definition uniq (s : state) : Prop :=
+Definition uniq (s : state_ru) : Prop :=
   forall w1 w2 c, held (w_pc (works s w1)) = Some c -> held (w_pc (works s w2)) = Some c -> w1 = w2.
 
-Definition exch_ok (s : state) (e : nat) : Prop :=
+Definition exch_ok (s : state_ru) (e : nat) : Prop :=
   let x := exchs s e in
   (forall w, x_pc x = CDialWait w -> w < nwork s /\ w_exch (works s w) = e) /\
   (forall w b, x_pc x = CWait w b -> w < nwork s /\ w_exch (works s w) = e) /\
   (forall q, x_pc x = CDone (OMsg q) -> q = e).
 
-Record Inv (s : state) : Prop := mkInv {
+Record Inv (s : state_ru) : Prop := mkInv {
   inv_nopanic : panicked s = false;
   inv_conn : forall c, conn_ok s c;
   inv_work : forall w, work_ok s w;
   inv_uniq : uniq s;
   inv_exch : forall e, exch_ok s e }.
 
-Lemma inv_init : Inv init.
+Lemma inv_init : Inv ru_init.
 Proof.
   split; cbn; auto.
   - intros c. unfold conn_ok, cleanc; cbn. repeat split; auto; try lia; try discriminate. intros _. left. repeat split; auto.
@@ -124,7 +124,7 @@ Proof.
   - intros w b H. destruct (B w b H). split; [lia|]. rewrite Hx; auto.
 Qed.
 
-(* ---- step patterns ---- *)
+(* ---- ru_step patterns ---- *)
 
 (* A: goroutine w acts on the connection it owns (and possibly lets go of it) *)
 Lemma inv_worker_step s s' w c :
@@ -186,10 +186,10 @@ Proof.
   - intros w1 w2 c. rewrite !Hw. apply (inv_uniq _ I).
 Qed.
 
-Lemma upd_same {A} (f : nat -> A) k v : upd f k v k = v.
-Proof. unfold upd. rewrite Nat.eqb_refl. reflexivity. Qed.
-Lemma upd_other {A} (f : nat -> A) k v i : i <> k -> upd f k v i = f i.
-Proof. unfold upd. intros H. apply Nat.eqb_neq in H. rewrite H. reflexivity. Qed.
+Lemma upd_same {A} (f : nat -> A) k v : ru_upd f k v k = v.
+Proof. unfold ru_upd. rewrite Nat.eqb_refl. reflexivity. Qed.
+Lemma upd_other {A} (f : nat -> A) k v i : i <> k -> ru_upd f k v i = f i.
+Proof. unfold ru_upd. intros H. apply Nat.eqb_neq in H. rewrite H. reflexivity. Qed.
 
 Ltac wfacts I w Ep :=
   let Ww := fresh "Ww" in
@@ -473,8 +473,8 @@ Proof.
     unfold conn_ok in *; cbn; rewrite upd_same; cbn; unfold cleanc, flight in *; cbn; intuition.
 Qed.
 
-Lemma mem_single q x : mem q [x] = true -> x = q.
-Proof. unfold mem; cbn. rewrite orb_false_r. intros H. apply Nat.eqb_eq in H. auto. Qed.
+Lemma mem_single q x : ru_mem q [x] = true -> x = q.
+Proof. unfold ru_mem; cbn. rewrite orb_false_r. intros H. apply Nat.eqb_eq in H. auto. Qed.
 
 Lemma pres_srvhalf2 s c s' : Inv s -> st_srvhalf2 s c = Some s' -> Inv s'.
 Proof.
@@ -497,20 +497,20 @@ Proof.
     + intros Hi. destruct (K5 Hi) as (_ & (_&_&_&_&C5&_)). congruence.
 Qed.
 
-Lemma mem_nil q : mem q [] = false.
+Lemma mem_nil q : ru_mem q [] = false.
 Proof. reflexivity. Qed.
 
 Lemma pres_srvreply s c q s' (first : bool) :
   Inv s ->
   (let cn := conns s c in let v := srv cn in
-   if negb (s_aborted v) && mem q (s_unans v) && negb (is_some (s_mid v)) then
+   if negb (s_aborted v) && ru_mem q (s_unans v) && negb (is_some (s_mid v)) then
      Some (set_conn s c (set_srv cn (mkSrv (remove1 q (s_unans v)) (if first then Some q else None)
                                            (s_inbox v ++ [if first then Half1 q else Whole q])
                                            (s_aborted v) (s_maxout v) (s_dirtyq v))))
    else None) = Some s' -> Inv s'.
 Proof.
   intros I. cbn. destruct (inv_conn _ I c) as (K1 & K2 & K3 & K4 & K5).
-  destruct (negb (s_aborted (srv (conns s c))) && mem q (s_unans (srv (conns s c))) &&
+  destruct (negb (s_aborted (srv (conns s c))) && ru_mem q (s_unans (srv (conns s c))) &&
             negb (is_some (s_mid (srv (conns s c))))) eqn:G; try discriminate.
   apply andb_true_iff in G. destruct G as [G Gm]. apply andb_true_iff in G. destruct G as [Ga Gu].
   intros H; inversion H; subst s'; clear H. envstep I s.
@@ -642,7 +642,7 @@ Proof.
   - destruct (no_idle s); try discriminate. intros H; inversion H; subst s'; clear H.
     set (w := nwork s).
     set (s1 := mkState false (nconn s) (conns s) (nexch s) (exchs s) (S w)
-                       (upd (works s) w (mkWork e DDial None)) (panicked s)).
+                       (ru_upd (works s) w (mkWork e DDial None)) (panicked s)).
     assert (Inv s1) as I1.
     { apply inv_acquire with (s := s) (w := w) (c := nconn s); cbn; auto.
       - rewrite fresh_pc; auto.
@@ -670,7 +670,7 @@ Proof.
   destruct (inv_exch _ I e) as (X1 & X2 & X3). destruct (X1 w Ex) as [Hw Hx].
   wstart I w.
   destruct oc as [c|]; intros H; inversion H; subst s'; clear H.
-  - set (s1 := set_work s w (set_pc (works s w) (WWrite c))).
+  - set (s1 := set_work s w (ru_set_pc (works s w) (WWrite c))).
     assert (Inv s1) as I1.
     { destruct (W1 c eq_refl) as (Hc & Hidle & Hhard & _). destruct (Hhard eq_refl) as [Hserv Hncl].
       assert (cleanc (conns s c)) as Hcl by (apply W2; auto).
@@ -684,7 +684,7 @@ Proof.
     intros e0; (destruct (Nat.eq_dec e0 e) as [->|N]; [|eother I1 s1 e0]).
     unfold exch_ok; cbn; rewrite !upd_same; cbn; repeat split; intros; try discriminate;
       inversion H; subst; auto; rewrite upd_same; auto.
-  - set (s1 := set_work s w (set_pc (works s w) WNone)).
+  - set (s1 := set_work s w (ru_set_pc (works s w) WNone)).
     assert (Inv s1) as I1.
     { apply inv_free_step with (s := s) (w := w); cbn; rewrite ?upd_same; cbn; auto.
       + rewrite Ep; reflexivity.
@@ -742,9 +742,9 @@ Proof.
     all: cok; repeat split; auto; try lia; try discriminate; left; repeat split; reflexivity.
   - set (w := nwork s).
     set (s1 := mkState (t_closed s) (nconn s)
-                 (upd (conns s) c (mkConn (mkFl true false false false false (f_inconns (fl (conns s c))))
+                 (ru_upd (conns s) c (mkConn (mkFl true false false false false (f_inconns (fl (conns s c))))
                                           (io (conns s c)) (srv (conns s c)) (Some e)))
-                 (nexch s) (exchs s) (S w) (upd (works s) w (mkWork e (WWrite c) None)) (panicked s)).
+                 (nexch s) (exchs s) (S w) (ru_upd (works s) w (mkWork e (WWrite c) None)) (panicked s)).
     assert (Inv s1) as I1.
     { dconn s c. destruct Hcl as (C1 & C2 & C3 & C4 & C5 & C6). subst.
       apply inv_acquire with (s := s) (w := w) (c := c); cbn; rewrite ?upd_same; cbn; auto.
@@ -762,9 +762,9 @@ Proof.
       inversion H; subst; auto; rewrite upd_same; auto.
 Qed.
 
-Theorem step_inv s l s' : Inv s -> step s l = Some s' -> Inv s'.
+Theorem step_inv s l s' : Inv s -> ru_step s l = Some s' -> Inv s'.
 Proof.
-  intros I. unfold step. rewrite (inv_nopanic _ I).
+  intros I. unfold ru_step. rewrite (inv_nopanic _ I).
   destruct l.
   - apply pres_start; auto.
   - apply pres_cancel; auto.
@@ -795,29 +795,29 @@ Lemma steps_inv ls : forall s s', Inv s -> steps s ls = Some s' -> Inv s'.
 Proof.
   induction ls as [|l r IH]; cbn; intros s s' I H.
   - inversion H; subst; auto.
-  - destruct (step s l) as [s1|] eqn:E; try discriminate. apply (IH s1); auto. apply (step_inv s l); auto.
+  - destruct (ru_step s l) as [s1|] eqn:E; try discriminate. apply (IH s1); auto. apply (step_inv s l); auto.
 Qed.
 
 Theorem reachable_inv s : reachable s -> Inv s.
-Proof. intros [ls H]. apply (steps_inv ls init); auto. apply inv_init. Qed.
+Proof. intros [ls H]. apply (steps_inv ls ru_init); auto. apply inv_init. Qed.
 
 Lemma steps_app a : forall s b, steps s (a ++ b) = match steps s a with Some s1 => steps s1 b | None => None end.
 Proof.
-  induction a as [|l r IH]; cbn; intros; auto. destruct (step s l); auto.
+  induction a as [|l r IH]; cbn; intros; auto. destruct (ru_step s l); auto.
 Qed.
 
-Lemma reachable_step s l s' : reachable s -> step s l = Some s' -> reachable s'.
+Lemma reachable_step s l s' : reachable s -> ru_step s l = Some s' -> reachable s'.
 Proof.
   intros [ls H] E. exists (ls ++ [l]). rewrite steps_app, H. cbn. rewrite E. reflexivity.
 Qed.
 
-(* ---- the big-step runs are schedules of the small-step system ---- *)
+(* ---- the big-ru_step runs are schedules of the small-ru_step system ---- *)
 Lemma do_labels_steps ls : forall s tr s' tr',
   do_labels s ls tr = Some (s', tr') -> exists m, tr' = rev m ++ tr /\ steps s m = Some s'.
 Proof.
   induction ls as [|l r IH]; cbn; intros s tr s' tr' H.
   - inversion H; subst. exists []. auto.
-  - destruct (step s l) as [s1|] eqn:E; try discriminate.
+  - destruct (ru_step s l) as [s1|] eqn:E; try discriminate.
     destruct (IH _ _ _ _ H) as (m & -> & Hm). exists (l :: m). cbn. rewrite E. split; auto.
     rewrite <- app_assoc. reflexivity.
 Qed.
@@ -828,7 +828,7 @@ Proof.
   induction fuel as [|f IH]; cbn; intros s tr s' tr' H.
   - destruct (next_label s); try discriminate. inversion H; subst. exists []. auto.
   - destruct (next_label s) as [l|]; [|inversion H; subst; exists []; auto].
-    destruct (step s l) as [s1|] eqn:E; try discriminate.
+    destruct (ru_step s l) as [s1|] eqn:E; try discriminate.
     destruct (IH _ _ _ _ H) as (m & -> & Hm). exists (l :: m). cbn. rewrite E. split; auto.
     rewrite <- app_assoc. reflexivity.
 Qed.
@@ -850,9 +850,9 @@ Proof.
     rewrite !rev_app_distr, <- !app_assoc. reflexivity.
 Qed.
 
-Theorem big_refines_small evs s tr : run_trace evs = Some (s, tr) -> steps init tr = Some s.
+Theorem big_refines_small evs s tr : run_trace evs = Some (s, tr) -> steps ru_init tr = Some s.
 Proof.
-  unfold run_trace. destruct (run_events (init, []) evs) as [[s1 tr1]|] eqn:E; try discriminate.
+  unfold run_trace. destruct (run_events (ru_init, []) evs) as [[s1 tr1]|] eqn:E; try discriminate.
   intros H; inversion H; subst. destruct (run_events_steps _ _ _ _ _ E) as (m & -> & Hm).
   rewrite app_nil_r, rev_involutive. auto.
 Qed.
@@ -870,14 +870,14 @@ Ltac dmatch H :=
   end.
 
 Lemma idle_only_by_rel2 s l s' c :
-  step s l = Some s' ->
+  ru_step s l = Some s' ->
   f_inidle (fl (conns s c)) = false -> f_inidle (fl (conns s' c)) = true ->
   exists w, l = LRel2 w /\ w_pc (works s w) = WRel2 c true.
 Proof.
-  unfold step. destruct (panicked s); try discriminate.
+  unfold ru_step. destruct (panicked s); try discriminate.
   destruct l; intros H Hb Ha.
   18: { unfold st_rel2 in H. destruct (w_pc (works s w)) eqn:Ep; try discriminate.
-        inversion H; subst s'; clear H. cbn in Ha. unfold upd in Ha.
+        inversion H; subst s'; clear H. cbn in Ha. unfold ru_upd in Ha.
         destruct (Nat.eqb c c0) eqn:Ec.
         - apply Nat.eqb_eq in Ec. subst c0. exists w. split; auto.
           cbn in Ha. unfold fl_close in Ha. destruct ok; auto.
@@ -887,7 +887,7 @@ Proof.
   all: unfold st_start, st_cancel, st_tclose, st_getidle, st_getnone, st_dialok, st_dialfail, st_dialdeliver,
          st_dialabandon, st_ctxdone, st_recv, st_write, st_writeerr, st_read, st_readerr, st_sendres, st_rel1,
          st_timer, st_srvwhole, st_srvhalf1, st_srvhalf2, st_srvabort, fl_close in H.
-  all: dmatch H; inversion H; subst s'; clear H; cbn in Ha; unfold upd in Ha.
+  all: dmatch H; inversion H; subst s'; clear H; cbn in Ha; unfold ru_upd in Ha.
   all: try congruence.
   all: repeat match type of Ha with context [if ?x then _ else _] => destruct x eqn:? end; cbn in Ha; try congruence.
   all: try (match goal with E : Nat.eqb _ _ = true |- _ => apply Nat.eqb_eq in E; subst end; cbn in *; congruence).
@@ -936,7 +936,7 @@ Proof. intros R H. destruct (inv_work _ (reachable_inv s R) w) as (_ & _ & _ & _
 
 (* a connection enters the idle set only through the second half of releaseConn of the goroutine
    that owns it, and then it is clean *)
-Lemma becomes_idle s l s' c : reachable s -> step s l = Some s' ->
+Lemma becomes_idle s l s' c : reachable s -> ru_step s l = Some s' ->
   f_inidle (fl (conns s c)) = false -> f_inidle (fl (conns s' c)) = true ->
   exists w, l = LRel2 w /\ w_pc (works s w) = WRel2 c true /\
             f_serving (fl (conns s c)) = false /\ cleanc (conns s c).
@@ -948,10 +948,10 @@ Proof.
 Qed.
 
 (* the caller giving up touches neither connections nor goroutines *)
-Lemma ctxdone_local s e s' : step s (LCallerCtxDone e) = Some s' ->
+Lemma ctxdone_local s e s' : ru_step s (LCallerCtxDone e) = Some s' ->
   conns s' = conns s /\ works s' = works s /\ nconn s' = nconn s /\ x_pc (exchs s' e) = CDone OCancel.
 Proof.
-  unfold step, st_ctxdone. destruct (panicked s); try discriminate.
+  unfold ru_step, st_ctxdone. destruct (panicked s); try discriminate.
   destruct (x_cancel (exchs s e)); try discriminate.
   destruct (x_pc (exchs s e)); try discriminate; intros H; inversion H; cbn; rewrite upd_same; auto.
 Qed.
@@ -965,7 +965,7 @@ Proof. intros s c R. split; [apply single_outstanding; auto | apply server_view;
 
 Lemma c06_exclusive : forall s, reachable s ->
   panicked s = false /\
-  (forall l s', step s l = Some s' -> panicked s' = false) /\
+  (forall l s', ru_step s l = Some s' -> panicked s' = false) /\
   (forall w1 w2 c, held (w_pc (works s w1)) = Some c -> held (w_pc (works s w2)) = Some c -> w1 = w2) /\
   (forall w c, held (w_pc (works s w)) = Some c -> f_inidle (fl (conns s c)) = false).
 Proof.
@@ -981,13 +981,13 @@ Lemma c06_own_reply : forall s, reachable s ->
 Proof. intros s R. split; [intros e q; apply own_reply; auto | intros w q; apply own_result; auto]. Qed.
 
 Lemma c06_abandoned : forall s, reachable s ->
-  (forall e s', step s (LCallerCtxDone e) = Some s' ->
+  (forall e s', ru_step s (LCallerCtxDone e) = Some s' ->
      conns s' = conns s /\ works s' = works s /\ nconn s' = nconn s /\ x_pc (exchs s' e) = CDone OCancel) /\
   (forall w c, held (w_pc (works s w)) = Some c ->
      f_inidle (fl (conns s c)) = false /\
      (hard (w_pc (works s w)) = true -> f_serving (fl (conns s c)) = true /\ f_closed (fl (conns s c)) = false) /\
      (forall w', held (w_pc (works s w')) = Some c -> w' = w)) /\
-  (forall l s' c, step s l = Some s' ->
+  (forall l s' c, ru_step s l = Some s' ->
      f_inidle (fl (conns s c)) = false -> f_inidle (fl (conns s' c)) = true ->
      exists w, l = LRel2 w /\ w_pc (works s w) = WRel2 c true /\
                f_serving (fl (conns s c)) = false /\ cleanc (conns s c)) /\
@@ -1002,5 +1002,5 @@ Proof.
 Qed.
 
 Lemma c06_big_refines_small : forall evs s tr,
-  run_trace evs = Some (s, tr) -> steps init tr = Some s /\ reachable s.
+  run_trace evs = Some (s, tr) -> steps ru_init tr = Some s /\ reachable s.
 Proof. intros evs s tr H. split; [apply (big_refines_small evs); auto|]. exists tr. apply (big_refines_small evs); auto. Qed.
